@@ -22,7 +22,7 @@ type ColDef struct {
 }
 
 type Stmt struct {
-	Kind   string // createTable dropTable addColumn dropColumn modifyColumn renameColumn addPk dropPk addFk dropFk renameIndex createIndex dropIndex commentOn
+	Kind   string // createTable dropTable addColumn dropColumn modifyColumn renameColumn addPk dropPk addFk dropFk renameIndex createIndex dropIndex commentOn alterType setDefault dropNotNull
 	T      string
 	Cols   []ColDef // createTable
 	Pk     []string // createTable table-level PRIMARY KEY / addPk columns / createIndex columns
@@ -94,6 +94,12 @@ func (s Stmt) sexp() string {
 		return L("dropIndex", q(s.T), q(s.A))
 	case "commentOn":
 		return L("commentOn", q(s.T), q(s.A), q(s.B))
+	case "alterType": // postgres: ALTER COLUMN A TYPE B
+		return L("alterType", q(s.T), q(s.A), q(s.B))
+	case "setDefault": // postgres: ALTER COLUMN A SET DEFAULT Col.Opts[0]
+		return L("setDefault", q(s.T), q(s.A), s.Col.Opts[0].sexp())
+	case "dropNotNull": // postgres: ALTER COLUMN A DROP NOT NULL
+		return L("dropNotNull", q(s.T), q(s.A))
 	}
 	panic("unknown stmt kind " + s.Kind)
 }
@@ -138,18 +144,18 @@ var mysqlTypes = []string{"int(11)", "bigint(20)", "tinyint(4)", "tinyint(1)", "
 	"char(3)", "text", "longtext", "datetime", "timestamp", "date", "decimal(10,2)", "decimal(12,4)", "decimal(5,3)", "double", "float", "json", "enum('a','b')", "enum('Open','InProgress')"}
 
 var pgTypeAliases = map[string][]string{
-	"INT8":        {"BIGINT", "INT8", "INT", "INTEGER"},
-	"INT4":        {"INT4"},
-	"INT2":        {"SMALLINT"},
-	"STRING":      {"TEXT"},
-	"VARCHAR(64)": {"VARCHAR(64)"},
+	"INT8":          {"BIGINT", "INT8", "INT", "INTEGER"},
+	"INT4":          {"INT4"},
+	"INT2":          {"SMALLINT"},
+	"STRING":        {"TEXT"},
+	"VARCHAR(64)":   {"VARCHAR(64)"},
 	"VARCHAR(128)":  {"VARCHAR(128)"},
 	"DECIMAL(10,2)": {"DECIMAL(10,2)", "NUMERIC(10,2)"},
 	"DECIMAL(12,4)": {"DECIMAL(12,4)"},
-	"BOOL":        {"BOOLEAN", "BOOL"},
-	"TIMESTAMP":   {"TIMESTAMP"},
-	"FLOAT8":      {"DOUBLE PRECISION", "FLOAT8"},
-	"DATE":        {"DATE"},
+	"BOOL":          {"BOOLEAN", "BOOL"},
+	"TIMESTAMP":     {"TIMESTAMP"},
+	"FLOAT8":        {"DOUBLE PRECISION", "FLOAT8"},
+	"DATE":          {"DATE"},
 }
 
 var pgTypes = []string{"INT8", "INT4", "INT2", "STRING", "VARCHAR(64)", "BOOL", "TIMESTAMP", "FLOAT8", "DATE", "VARCHAR(128)", "DECIMAL(10,2)", "DECIMAL(12,4)"}
@@ -323,6 +329,12 @@ func (st sqlStyle) stmt(s Stmt) string {
 			return st.kw("DROP INDEX") + " " + st.id(s.A) + ";"
 		}
 		return st.kw("DROP INDEX") + " " + st.id(s.A) + " " + st.kw("ON") + " " + st.id(s.T) + ";"
+	case "alterType":
+		return at + st.kw("ALTER COLUMN") + " " + st.id(s.A) + " " + st.kw("TYPE") + " " + st.typ(s.B) + ";"
+	case "setDefault":
+		return at + st.kw("ALTER COLUMN") + " " + st.id(s.A) + " " + st.kw("SET") + " " + st.opt(s.Col.Opts[0]) + ";"
+	case "dropNotNull":
+		return at + st.kw("ALTER COLUMN") + " " + st.id(s.A) + " " + st.kw("DROP NOT NULL") + ";"
 	case "commentOn":
 		return st.kw("COMMENT ON COLUMN") + " " + st.id(s.T) + "." + st.id(s.A) + " " + st.kw("IS") + " " + sqlStr(s.B) + ";"
 	}
@@ -368,7 +380,11 @@ func tableLevelPk(ss []Stmt) ([]Stmt, bool) {
 
 // scriptInlineKeys renders createIndex statements that directly follow their createTable as inline KEY / UNIQUE KEY
 // clauses of that CREATE TABLE (MySQL), the way a hand-written schema often declares them
-func (st sqlStyle) scriptInlineKeys(ss []Stmt) string {
+func (st sqlStyle) scriptInlineKeys(ss []Stmt) string { return st.scriptInlineKeysUsing(ss, "") }
+
+// scriptInlineKeysUsing: the indexes that directly follow their table, written as inline KEY / UNIQUE KEY items of the
+// CREATE TABLE, each with the given ` USING …` clause ("" = none)
+func (st sqlStyle) scriptInlineKeysUsing(ss []Stmt, using string) string {
 	var out []string
 	for i := 0; i < len(ss); i++ {
 		s := ss[i]
@@ -383,7 +399,7 @@ func (st sqlStyle) scriptInlineKeys(ss []Stmt) string {
 			if ss[j].Unique {
 				k = st.kw("UNIQUE KEY")
 			}
-			keys = append(keys, "  "+k+" "+st.id(ss[j].A)+" ("+st.ids(ss[j].Pk)+")")
+			keys = append(keys, "  "+k+" "+st.id(ss[j].A)+" ("+st.ids(ss[j].Pk)+")"+using)
 			j++
 		}
 		txt := st.stmt(s)
